@@ -6,10 +6,23 @@ static int last_refused;      /* the outermost operation was refused (monitor st
 #undef REFUSED
 #define REFUSED(rc, what, sig) do { if ((rc) >= 0) vfail("ST.refuse", sig, "%s returned %d, expected a negative code", what, (int)(rc)); check_unchanged(&sn, what, sig); if (api_depth == 1) last_refused = 1; } while (0)
 
+static int inj_at_entry, nmsg_at_entry;
+/* a pipe write was refused during this call (mailbox full): whatever was sent during the call may have vanished for one recipient */
+static void inj_relax(void) {
+    if (!(inj_at_entry && !shim_inject_write_eagain)) return;
+    mon_flush();
+    for (int i = 0; i < NM; i++) for (int k = 0; k < MD[i].nmb; k++) if (MD[i].mb[k].msg >= nmsg_at_entry && !MD[i].mb[k].optional && MD[i].mb[k].kind == 0) { MD[i].mb[k].optional = 1; MSG[MD[i].mb[k].msg].owed--; }
+    inj_at_entry = 0;
+}
+static void discard_pending(int i) {   /* the pending messages of module i are about to be discarded by the library */
+    for (int k = 0; k < MD[i].nmb; k++) if (!MD[i].mb[k].optional && MD[i].mb[k].kind == 0) { MD[i].mb[k].optional = 1; MSG[MD[i].mb[k].msg].owed--; }
+}
+
 static void do_api(op_t op) {
     int s = op.a, rc; snap_t sn; char what[96];
     api_depth++;
     mon_flush();
+    if (api_depth == 1) { inj_at_entry = shim_inject_write_eagain; nmsg_at_entry = nmsg; }
     switch (op.c) {
     /* ------------------------------------------------ context */
     case O_CTX_REG: {
@@ -21,6 +34,7 @@ static void do_api(op_t op) {
     case O_CTX_DEREG: {
         take_snap(&sn);
         if (!CX.exists || CX.looping || ctx_hidden()) { rc = m_ctx_deregister(); REFUSED(rc, "m_ctx_deregister", CX.looping ? "ST.refuse|ctx-dereg-looping" : "ST.refuse|ctx-dereg-none"); break; }
+        for (int i = 0; i < NM; i++) if (MD[i].present) discard_pending(i);
         teardown_busy++;
         rc = m_ctx_deregister();
         teardown_busy--;
@@ -74,17 +88,19 @@ static void do_api(op_t op) {
             mtimer_t *t = mt_find(-1, -3); if (t) { t->armed = 1; t->next = shim_now_ns + t->period; }
             check_pass("the loop started");
         } else if (CX.quit || n_running() == 0) {
-            int want = CX.quit ? CX.quit_code : 0;
+            int want = CX.quit ? CX.quit_code : 0; int nmsg_stop_entry = nmsg;
             CX.looping = 0; flush_phase = 1;
             post_push(POST_CTX_STOPPED, -1, 0); mon_flush();
-            rc = m_ctx_dispatch(); flush_phase = 0;
+            /* modules that are not RUNNING get nothing: their pending messages are discarded by this call */
+            for (int i = 0; i < NM; i++) if (MD[i].present && MD[i].st != S_RUNNING) discard_pending(i);
+            rc = m_ctx_dispatch(); flush_phase = 0; inj_relax();
             if (rc != want) vfail("LP.ret", "LP.ret|code", "the dispatch call that stops the loop returned %d, expected the requested code %d", rc, want);
             mon_flush();
             for (int i = 0; i < NM; i++) { mod_t *m = &MD[i]; if (!m->present) continue;
                 if (m->st == S_RUNNING) {
-                    int held = m->batch_size > 0 || m->batch_tmo > 0;
+                    int held = m->batch_size > 0 || m->batch_tmo > 0 || m->ever_batched;
                     for (int k = 0; k < NPAT; k++) if (m->sub[k].present && m->sub[k].prio == PR_LOW) held = 1;
-                    if (!held && ON(R_PS)) for (int k = 0; k < m->nmb; k++) if (!m->mb[k].optional && m->mb[k].kind == 0)
+                    if (!held && ON(R_PS)) for (int k = 0; k < m->nmb; k++) if (!m->mb[k].optional && m->mb[k].kind == 0 && m->mb[k].msg < nmsg_stop_entry)   /* sent before this call */
                         vfail("PS.owed", MSG[m->mb[k].msg].sys ? "PS.owed|sys" : "PS.owed", "the loop stopped but message #%d (topic %s) owed to RUNNING module %s was never handed over", m->mb[k].msg,
                               MSG[m->mb[k].msg].topic < NTOPIC ? TOPIC[MSG[m->mb[k].msg].topic] : "-", m->name);
                     for (int k = m->nmb - 1; k >= 0; k--) if (m->mb[k].optional) mb_remove(i, k);
@@ -101,7 +117,7 @@ static void do_api(op_t op) {
             int inj = shim_inject_epoll_errno;
             rc = m_ctx_dispatch(); in_pass = 0;
             mon_flush();
-            if (tick_owed) { tick_owed = 0; post_push(POST_TICK, -1, 0); mon_flush(); }
+            if (tick_owed) { tick_owed = 0; post_push(POST_TICK, -1, 1); mon_flush(); }   /* ticks: an upper bound on frequency only, hence optional */
             if (inj == EBADF) { if (rc < 0) { CX.quit = 1; CX.quit_code = EBADF; } }
             else if (rc < 0 && ON(R_LP)) vfail("LP.ret", "LP.ret|error", "m_ctx_dispatch returned %d although polling did not fail", rc);
             if (rc > 0) check_pass("a batch of events was processed");
@@ -229,13 +245,13 @@ static void do_api(op_t op) {
         rc = m_mod_set_batch_size(h, BSZ[op.b]);
         if (!MD[s].present || ctx_hidden()) { REFUSED(rc, "m_mod_set_batch_size", "ST.refuse|batch"); break; }
         if (rc) vfail("BA.set", "BA.set", "m_mod_set_batch_size returned %d", rc);
-        MD[s].batch_size = BSZ[op.b]; break; }
+        MD[s].batch_size = BSZ[op.b]; if (BSZ[op.b]) MD[s].ever_batched = 1; break; }
     case O_BATCH_TMO: {
         m_mod_t *h = handle(s); take_snap(&sn);
         rc = m_mod_set_batch_timeout(h, TMO[op.b]);
         if (!MD[s].present || ctx_hidden()) { REFUSED(rc, "m_mod_set_batch_timeout", "ST.refuse|batch"); break; }
         if (rc) vfail("BA.set", "BA.set|timeout", "m_mod_set_batch_timeout(%lu) returned %d", (unsigned long)TMO[op.b], rc);
-        MD[s].batch_tmo = op.b; mt_del(s, -1); MD[s].batch_fired = 0;
+        MD[s].batch_tmo = op.b; mt_del(s, -1); MD[s].batch_fired = 0; if (op.b) MD[s].ever_batched = 1;
         if (op.b) mt_set(s, -1, TMO[op.b], 0, MD[s].st == S_RUNNING);
         break; }
     case O_UNSTASH: {
@@ -262,6 +278,7 @@ static void do_api(op_t op) {
     case O_RELEASE: { int r = retained[op.a]; for (int i = op.a; i < nret - 1; i++) retained[i] = retained[i + 1]; nret--; EV[r].refs--; m_mem_unref((void *)EV[r].p); break; }
     default: vfail("INTERNAL", "INTERNAL", "unknown op %d", op.c);
     }
+    if (api_depth == 1 && op.c != O_INJECT) inj_relax();
     api_depth--;
 }
 #endif
